@@ -1150,6 +1150,8 @@ class quantized_linear(base_quantizer.BaseQuantizer):
     if self.use_stochastic_rounding:
       flags.append("use_stochastic_rounding=" +
                    str(int(self.use_stochastic_rounding)))
+    if self.scale_axis is not None:
+      flags.append("scale_axis=" + str(self.scale_axis).replace(" ", ""))
     return "quantized_linear(" + ",".join(flags) + ")"
 
   def _set_trainable_parameter(self):
